@@ -781,9 +781,16 @@ def top_stmt_index(fn, node, pm):
     return None
 
 
+def pos(n):
+    """evaluation-order position: the source position, or for code of a helper that is read in place of its call (canon.
+    inline_new_helpers) the end of that call followed by the node's rank inside the helper"""
+    o = n.get("o")
+    return tuple(o) if o else (n["l"], n["c"])
+
+
 def before(a, b):
     """source order"""
-    return (a["l"], a["c"]) < (b["l"], b["c"])
+    return pos(a) < pos(b)
 
 
 def preceding_guards(node, pm):
